@@ -151,6 +151,26 @@ def run_case(ck, desc):
         if np.any(after != rf1[-1]):
             ck.violation("interpolator-final-after-last-time", {"values": after, "final": rf1[-1]}, desc)
 
+    # ... and after the object has been USED (recoveries, plots): the stored stamps are still the
+    # simulated ones, so an interpolator built afterwards still answers at them
+    if strictly and nt >= 3:
+        t_pristine = t.copy()
+        res6, ev6, rf6, _, _, fl6 = _run(dict(desc, reused=False), t)
+        if ev6 is not None:
+            sim.reread_after_use(ck, desc, res6, fl6, ev6["pp"], t_pristine, caller_time=t, plots=True)
+            t = t_pristine.copy()
+            try:
+                with np.errstate(all="ignore"), warnings.catch_warnings():
+                    warnings.simplefilter("ignore")
+                    ip6 = res6.recovery_factor_interpolator()
+                    at6 = np.asarray(ip6(t_pristine), dtype=float)
+                    before6 = float(ip6(t_pristine[0] - 0.5))
+                sc6 = max(float(np.max(np.abs(rf6))), 1e-300)
+                if float(np.max(np.abs(at6 - rf6))) / sc6 > 1e-12 or before6 != 0:
+                    ck.violation("interpolator-at-nodes", {"after": "recoveries and plots used the object", "max_rel": float(np.max(np.abs(at6 - rf6))) / sc6, "value_before_first_stamp": before6, "first_stamp": float(t_pristine[0])}, desc)
+            except Exception as e:  # noqa: BLE001
+                ck.violation("interpolator-at-nodes", {"after": "recoveries and plots used the object", "raised": repr(e)}, desc)
+            ck.count("interpolators_checked_after_use_by_plots")
     # the interpolator still reproduces recovery AT THE SIMULATED TIMES when recovery was last asked
     # for with other report times (same count, and another count) through the method's `time` argument
     if strictly and nt >= 3:
